@@ -200,10 +200,21 @@ def r1_r2_r5_search(repo, rep, name):
     # R5: score replacement
     repl = []
     if isinstance(sarg, ast.Name):
+      # the score object may be known under several local names: design_score = score_obj (a plain alias, e.g. the result
+      # variable of an inlined factory helper)
+      aliases, cur_, at_ = {sarg.id: dn}, sarg.id, dn
+      for _hop in range(4):
+        d_ = rd.single_def(at_, cur_)
+        if d_ is not None and d_.how == 'assign' and isinstance(d_.value, ast.Name):
+          cur_, at_ = d_.value.id, d_.node
+          aliases[cur_] = at_
+        else:
+          break
       for n in g.nodes:
         if n.kind == 'stmt' and isinstance(n.ast, ast.Assign):
           for t in n.ast.targets:
-            if isinstance(t, ast.Attribute) and t.attr == 'score' and norm(t.value) == sarg.id and rd.defs_at(n, sarg.id) == rd.defs_at(dn, sarg.id):
+            if isinstance(t, ast.Attribute) and t.attr == 'score' and norm(t.value) in aliases \
+                and rd.defs_at(n, norm(t.value)) == rd.defs_at(aliases[norm(t.value)], norm(t.value)):
               repl.append(n)
     if name == 'greedy_search':
       rep.check(not repl, 'R5/score-entry', 'greedy_search never rewrites the score of a pushed design', f.qualname,
@@ -223,7 +234,7 @@ def r1_r2_r5_search(repo, rep, name):
         if isinstance(v, ast.Call) and isinstance(v.func, ast.Attribute) and v.func.attr == '_replace':
           kws = {k.arg: k.value for k in v.keywords}
           base = norm(view.expand(n, v.func.value))
-          rep.check(set(kws) == {'inv_required_impact'} and base == '%s.score' % sarg.id, 'R5/score-entry', 'only the last entry of this design\'s own score is replaced', f.qualname,
+          rep.check(set(kws) == {'inv_required_impact'} and base in {'%s.score' % a_ for a_ in aliases}, 'R5/score-entry', 'only the last entry of this design\'s own score is replaced', f.qualname,
                     norm(v)[:100], 'the replacement `%s` changes entries other than inv_required_impact or starts from another score' % norm(v)[:80], f.loc(n.ast))
           kw = kws.get('inv_required_impact')
         if kw is None:
